@@ -9,6 +9,9 @@ TripQuick == {
   <<IntV(-7), Dec(3, 2), IntV(0)>>,
   <<Str(a_), Str(b_), Str(a_)>>,
   <<List(<<1, 2>>), IntV(2), List(<<2, 3>>)>> }
+PoolQuick == { Null, IntV(0), IntV(2), IntV(-7), IntV(10), Dec(1, 2), Dec(5, 2), Dec(2, 1), Dec(0, 1), Dec(-7, 1),
+               Bool(TRUE), Bool(FALSE), Str(a_), Str(<<97, 98>>), Str(<< >>), List(<<1, 2>>), List(<<2>>), List(<< >>) }
+PoolMini == { Null, IntV(2), Dec(5, 2), Bool(TRUE), Str(a_), List(<<1, 2>>) }
 TripMini == { <<IntV(7), IntV(2), IntV(3)>>, <<Bool(TRUE), Bool(FALSE), Bool(TRUE)>>,
               <<Str(a_), IntV(2), List(<<2, 3>>)>> }
 TripThorough == TripQuick \cup {
